@@ -144,79 +144,99 @@ def lst(xs):
 
 
 Z32, F32, A5, C3 = 0, 0xFFFFFFFF, 0xA5A5A5A5, 0x3C3CC3C3
-IDLE = {"axi_awprot": lst([uv(3, 0)]), "axi_arprot": lst([uv(3, 0)])}
-WR_OFF = {"axi_awaddr": lst([uv(4, 0)]), "axi_awvalid": "[VL false]", "axi_wdata": lst([bv(32, 0)]),
-          "axi_wstrb": lst([bv(4, 0)]), "axi_wvalid": "[VL false]", "axi_bready": "[VL false]"}
-RD_OFF = {"axi_araddr": lst([uv(4, 0)]), "axi_arvalid": "[VL false]", "axi_rready": "[VL false]"}
+INPUTS = ["axi_awaddr", "axi_awprot", "axi_awvalid", "axi_wdata", "axi_wstrb", "axi_wvalid", "axi_bready",
+          "axi_araddr", "axi_arprot", "axi_arvalid", "axi_rready"]
+FREE = "bit_cands"
+OFF = "[VL false]"
+ON = "[VL true]"
 
 
-def ph_write(addrs, datas, strbs):
-    """all valid/ready timings of AW, W, B (the master may present W before AW, change WDATA/WSTRB once its W beat was
-    taken, and raise the next AWVALID/WVALID while BVALID still waits for BREADY); read channels idle"""
-    return dict(IDLE, **RD_OFF, axi_awaddr=lst([uv(4, a) for a in addrs]), axi_wdata=lst([bv(32, d) for d in datas]),
-                axi_wstrb=lst([bv(4, s) for s in strbs]))
+def prod(awaddr=(0,), awvalid=FREE, wdata=(0,), wstrb=(0,), wvalid=FREE, bready=FREE, araddr=(0,), arvalid=FREE, rready=FREE):
+    """one product alphabet in the order of INPUTS (awprot/arprot constant 0)"""
+    parts = [lst([uv(4, a) for a in awaddr]), lst([uv(3, 0)]), awvalid, lst([bv(32, d) for d in wdata]), lst([bv(4, x) for x in wstrb]),
+             wvalid, bready, lst([uv(4, a) for a in araddr]), lst([uv(3, 0)]), arvalid, rready]
+    return "(product [" + "; ".join(parts) + "])"
 
 
-def ph_read(addrs):
-    return dict(IDLE, **WR_OFF, axi_araddr=lst([uv(4, a) for a in addrs]))
-
-
-def ph_rw(waddrs, datas, strbs, raddrs):
-    return dict(IDLE, axi_awaddr=lst([uv(4, a) for a in waddrs]), axi_wdata=lst([bv(32, d) for d in datas]),
-                axi_wstrb=lst([bv(4, s) for s in strbs]), axi_araddr=lst([uv(4, a) for a in raddrs]))
+NO_RD = dict(arvalid=OFF, rready=OFF)
+NO_WR = dict(awvalid=OFF, wvalid=OFF, bready=OFF)
 
 
 def plan(tier):
-    """[(layout, phase, alphabet overrides, description of the alphabet)]"""
+    """[(layout, phase, alphabet term, description of the alphabet)]
+
+    write phases: every valid/ready timing of AW, W, B - the master may present W before AW, change WDATA/WSTRB once its
+    W beat was taken, and raise the next AWVALID/WVALID while BVALID still waits for BREADY; read channels idle.
+    State spaces grow with the product of the payload alphabets (the design samples the payloads in every clock), so
+    the payload alphabets are small and differ per phase; '+' in a description = union of product alphabets."""
     q = tier == "quick"
     P = []
 
-    def add(layout, phase, alpha, **desc):
-        P.append((layout, phase, alpha, desc))
-
     def wr(layout, phase, addrs, datas, strbs):
-        add(layout, phase, ph_write(addrs, datas, strbs), awaddr=addrs, wdata=datas, wstrb=strbs)
+        P.append((layout, phase, prod(awaddr=addrs, wdata=datas, wstrb=strbs, **NO_RD), dict(awaddr=addrs, wdata=datas, wstrb=strbs)))
+
+    def wr_pairs(layout, phase, addrs, pairs):
+        """(wdata, wstrb) taken from the listed pairs only"""
+        P.append((layout, phase, " ++ ".join(prod(awaddr=addrs, wdata=[d], wstrb=[x], **NO_RD) for d, x in pairs),
+                  dict(awaddr=addrs, wdata_wstrb_pairs=pairs)))
 
     def rd(layout, phase, addrs):
-        add(layout, phase, ph_read(addrs), araddr=addrs)
+        P.append((layout, phase, prod(araddr=addrs, **NO_WR), dict(araddr=addrs)))
 
     def rw(layout, phase, waddrs, datas, strbs, raddrs):
-        add(layout, phase, ph_rw(waddrs, datas, strbs, raddrs), awaddr=waddrs, wdata=datas, wstrb=strbs, araddr=raddrs)
+        P.append((layout, phase, prod(awaddr=waddrs, wdata=datas, wstrb=strbs, araddr=raddrs),
+                  dict(awaddr=waddrs, wdata=datas, wstrb=strbs, araddr=raddrs)))
 
-    datas = [F32] if q else [Z32, F32, A5]
-    strbs1 = [5, 10] if q else [0, 1, 4, 12, 15]
-    # two registers x two strobe patterns is a product of > 10^4 states; one pattern there
-    strbs2 = [5] if q else [0, 1, 4, 12, 15]
+    def rw_tied(layout, phase, waddrs, datas, strbs, raddrs, bready=FREE):
+        """AWVALID and WVALID always presented together (the other timings stay free)"""
+        P.append((layout, phase, " ++ ".join(prod(awaddr=waddrs, wdata=datas, wstrb=strbs, araddr=raddrs, awvalid=v, wvalid=v, bready=bready)
+                                             for v in (OFF, ON)),
+                  dict(awaddr=waddrs, wdata=datas, wstrb=strbs, araddr=raddrs, tied="awvalid = wvalid", bready=bready)))
+
     # --- plain words ---
-    wr("one_memword", "write", [0, 4], datas, strbs1)
+    wr("one_memword", "write", [0, 4], [F32], [5, 10])
     rd("one_memword", "read", [0, 4])
-    rw("one_memword", "readwrite", [0], [F32] if q else [Z32, F32], [5], [0] if q else [0, 4])
-    # W beat before the AW beat with WDATA *and* WSTRB changing after the W handshake (the write phase above has one data
-    # pattern in the quick tier): the latched beat must be used
-    wr("one_memword", "wskew", [0], [A5, C3], [3, 12] if q else [1, 6, 15])
-    wr("two_memwords", "write", [0, 4, 8], datas, strbs2)
-    rd("two_memwords", "read", [0, 4, 8] if q else [0, 4, 8, 12])
-    if not q:
-        rw("two_memwords", "readwrite", [0], [Z32, F32], [5], [0, 4])
-        wr("nested_file", "write", [0, 12, 4], datas, strbs2)
-        rd("nested_file", "read", [0, 12, 4, 8])
-        rw("nested_file", "readwrite", [0], [Z32, F32], [5], [0, 12])
+    rw("one_memword", "readwrite", [0], [F32], [5], [0])
+    # W beat before the AW beat with WDATA *and* WSTRB changing after the W handshake: the latched beat must be used
+    wr_pairs("one_memword", "wskew", [0], [(A5, 3), (C3, 12)])
+    # two registers x two strobe patterns is a product of > 10^4 states; one pattern there
+    wr("two_memwords", "write", [0, 4, 8], [F32], [5])
+    rd("two_memwords", "read", [0, 4, 8])
     # --- arrays ---
-    wr("array_top", "write", [4, 8, 0], datas, strbs2)
+    wr("array_top", "write", [4, 8, 0], [F32], [5])
     rd("array_top", "read", [4, 8, 12] if q else [0, 4, 8, 12])
-    wr("array_in_file", "write", [8, 12, 0], datas, strbs2)
+    wr("array_in_file", "write", [8, 12, 0], [F32], [5])
     rd("array_in_file", "read", [8, 12, 4] if q else [0, 4, 8, 12])
     # --- two levels of register files ---
-    wr("nested2", "write", [12, 4] if q else [12, 4, 8], datas, strbs1)
+    wr("nested2", "write", [12, 4], [F32], [5])
     rd("nested2", "read", [12, 4] if q else [0, 4, 8, 12])
-    if not q:
-        rw("nested2", "readwrite", [12], [Z32, F32], [5], [12, 4])
     # --- register with fields: full-word writes (access kinds, notifications, hardware-side updates) ---
-    wr("fields", "write", [4, 0], [F32, Z32] if q else [Z32, F32, A5], [15])
+    wr("fields", "write", [4, 0], [F32], [15])
+    wr("fields", "write_data", [4], [F32, Z32], [15])
     rd("fields", "read", [4, 0] if q else [0, 4, 8])
-    rw("fields", "readwrite", [4], [F32] if q else [Z32, F32], [15], [4] if q else [4, 0])
-    # partial strobes on a register with fields (byte 1 holds mu and the upper bits of nothing else)
-    wr("fields", "write_strobe", [4], [F32] if q else [Z32, F32], [1, 2] if q else [0, 1, 2, 3, 15])
+    rw_tied("fields", "readwrite_tied", [4], [F32], [15], [4], bready=ON if q else FREE)
+    # partial strobes on a register with fields (byte 0 = m, byte 1 = mu, byte 2 = cnt (hardware), byte 3 = tog (hardware))
+    wr("fields", "write_strobe", [4], [F32], [1, 2])
+    if not q:
+        # wider payload alphabets, one aspect per case
+        for i, pair in enumerate([[0, 15], [1, 4], [12, 3], [6, 9]]):
+            wr("one_memword", f"write_strb{i}", [0], [F32, Z32], pair)
+        wr("one_memword", "write_data3", [0, 4], [Z32, F32, A5], [15])
+        rw("one_memword", "readwrite2", [0], [Z32, F32], [5], [0, 4])
+        wr_pairs("one_memword", "wskew2", [0, 4], [(A5, 1), (C3, 6), (F32, 8)])
+        wr("two_memwords", "write2", [0, 4, 8], [F32, Z32], [12])
+        rw("two_memwords", "readwrite", [0, 4], [F32], [5], [0, 4])
+        wr("nested_file", "write", [0, 12, 4], [F32], [5])
+        rd("nested_file", "read", [0, 12, 4, 8])
+        rw("nested_file", "readwrite", [12], [F32], [5], [0, 12])
+        wr("array_top", "write2", [4, 8, 12], [F32, Z32], [10])
+        rw("array_top", "readwrite", [8], [F32], [5], [4, 8])
+        wr("array_in_file", "write2", [8, 12, 4], [F32, Z32], [10])
+        wr("nested2", "write2", [12, 4, 8, 0], [F32, Z32], [9])
+        rw("nested2", "readwrite", [12], [F32], [5], [12, 4])
+        wr("fields", "write_data3", [4], [Z32, F32, A5], [15])
+        rw("fields", "readwrite", [4], [F32], [15], [4])
+        wr("fields", "write_strobe2", [4], [F32, Z32], [0, 3])
     return P
 
 
@@ -262,7 +282,7 @@ def run(ck: common.Check, replay=None):
                  % (nf["reg"], nf["wshift"], nf["wwidth"], nf["rshift"])) if nf else "None"
         cases.append(X.Case(f"axi_{name}_{phase}", r["vhdl"], step=f"axi_monitor_x 3%Z {offsets} {wmasks} {nspec}",
                             init=f"axi_m0 {defaults}", monitor=True, imports="From Cohdl Require Import Models.AxiSpec.",
-                            alphabet_overrides=alpha, fuel=600000 if ck.tier == "quick" else 6000000,
+                            alphabet=alpha, fuel=600000 if ck.tier == "quick" else 6000000,
                             meta={"layout": name, "phase": phase, "alphabet": desc,
                                   "registers": [{"port": p, "offset": o, "default": d} for p, _, o, d in regs],
                                   "inputs": "awaddr awprot awvalid wdata wstrb wvalid bready araddr arprot arvalid rready",
@@ -273,7 +293,14 @@ def run(ck: common.Check, replay=None):
         ck.hist("layouts", name)
     results = X.run_cases(ck, cases, "AXI4-Lite monitor flags on an input sequence (handshake, response count, decode, strobed/masked write, "
                            "read data, notification or hardware-side field update)",
-                key_of=lambda c: {"layout": c.meta["layout"], "phase": c.meta["phase"]}, count_first=len(cases), timeout=3300)
+                key_of=lambda c: {"layout": c.meta["layout"], "phase": c.meta["phase"], "group": c.meta["phase"].rstrip("0123456789")}, count_first=len(cases), timeout=3300)
+    for c, status, info in results:
+        # the alphabets are written in the order of INPUTS: the parsed design must list its inputs in that order
+        if getattr(c, "design", None) is not None and list(c.design.inputs) != INPUTS:
+            ck.obligation(False)
+            ck.violation({"layout": c.meta["layout"], "phase": c.meta["phase"], "harness": "input order"},
+                         "input ports of the compiled wrapper are not in the order the alphabet assumes",
+                         {"inputs": list(c.design.inputs), "expected": INPUTS}, no_input=True)
     ck.cov["cases"] = {c.name: (dict(states=info["states"], transitions=info["transitions"]) if status == "ok" else status)
                        for c, status, info in results}
     ck.cov["rule"] = ("one theorem per (register-map layout, phase); each covers all sequences over the phase's alphabet: all valid/ready "
